@@ -9,7 +9,7 @@ ISO=/var/tmp/iso/$NAME
 OUT=/var/tmp/iso/out/${TAG:-$NAME}
 mkdir -p "$ISO" "$OUT"
 if [ ! -d "$ISO/repo" ]; then git -C /repo worktree add --detach "$ISO/repo" HEAD >/dev/null 2>&1; fi
-git -C "$ISO/repo" checkout -q -- . ; git -C "$ISO/repo" clean -qfd
+git -C "$ISO/repo" reset -q --hard; git -C "$ISO/repo" clean -qfd
 git -C "$ISO/repo" checkout -q --detach "$(git -C /repo rev-parse HEAD)"
 if [ -n "$REVERT" ]; then git -C "$ISO/repo" show "$REVERT" | git -C "$ISO/repo" apply -R; fi
 if [ "$PATCH" != "-" ]; then git -C "$ISO/repo" apply "$PATCH" || git -C "$ISO/repo" apply --3way "$PATCH"; fi
